@@ -6,11 +6,12 @@ Requests (matrices travel as `rows cols v11 v12 …`, exact rationals):
   fant k  A r  (U S rf)×k  Kt Ktt mt
       a chain of `k` fantasy steps on base data `(A, r)`; `Kt` (t×N), `Ktt` (t×t), `mt` (t×1) are the test blocks
       against the fully concatenated data (`N = n + Σ f`).
-      reply:  ok eq=<5 bits> kappa <q> | mc | Kinv | pm | pc | pcr
-        mc / Kinv  : incrementally updated mean cache and carried inverse (`Steps.fold?`)
-        pm / pc    : predictive mean / covariance from the incremental caches
-        eq bits    : [mc = scratch mc, Kinv = scratch Kinv, pm = scratch pm, pc = scratch pc,
-                      J·mc = y (exact residual zero)]  — scratch = `Steps.scratch?` on the assembled system
+      reply:  ok eq=<6 bits> kappa <q> | mc | Kinv | pm | pc
+        mc / Kinv / pm / pc : the closed form (`Steps.scratch?` on the assembled system) — the specification
+        eq bits    : the incremental route, evaluated with the definitions **generated from the Python source**
+                     (`Gen.FantasyAlgebra.defaultMeanCache? / defaultSchur / defaultFantSolve`, `genFold?` below):
+                     [mc = scratch mc, Kinv = scratch Kinv, pm = scratch pm, pc = scratch pc, J·mc = y,
+                      generated fold = hand-written `Steps.fold?`]
         kappa      : ‖J‖∞ ‖J⁻¹‖∞ (exact)
       numbers in the reply are ⌊q·2¹⁰⁰⌋ (integers; divide by 2¹⁰⁰)
 
@@ -22,6 +23,7 @@ Requests (matrices travel as `rows cols v11 v12 …`, exact rationals):
       reply  ok eq=<2 bits> | P' | c'     (updated caches; bits: equal to recomputation from concatenated data)
 -/
 import GPVerif.Model.Fantasy
+import GPVerif.Gen.FantasyAlgebra
 import GPVerif.Model.Proto
 open Proto Fantasy
 
@@ -74,6 +76,21 @@ def parseFant (k : String) (ts : List String) : Option FantReq := do
   let (mt, _) ← takeD t 1 ts
   some ⟨ch, t, Kt, Ktt, mt⟩
 
+/-- The incremental route with the *generated* algebra: mean cache from `Gen.defaultMeanCache?`, carried inverse
+from the generated `fant_solve` / `schur_complement`. -/
+def genFold? : {n : Nat} → Steps Rat n → Option (FState n Rat)
+  | _, .base A r => init? A r
+  | _, .step c U S rf =>
+    match genFold? c with
+    | none => none
+    | some st =>
+      let z : DMat _ 1 Rat := DMat.zero
+      match Gen.FantasyAlgebra.defaultMeanCache? st.Kinv st.mean U S rf z,
+            (Gen.FantasyAlgebra.defaultSchur st.Kinv st.mean U S rf z).inv? with
+      | some mc, some Sinv =>
+        some { Kinv := invUpdate st.Kinv (Gen.FantasyAlgebra.defaultFantSolve st.Kinv st.mean U S rf z) Sinv, mean := mc }
+      | _, _ => none
+
 def normInf {n m : Nat} (A : DMat n m Rat) : Rat :=
   A.toRows.foldl (fun acc row => max acc (row.foldl (fun s x => s + |x|) 0)) 0
 
@@ -85,7 +102,7 @@ def doFant (ts : List String) : String :=
     match parseFant k ts with
     | none => "bad"
     | some ⟨ch, _, Kt, Ktt, mt⟩ =>
-      match ch.c.fold?, ch.c.scratch? with
+      match genFold? ch.c, ch.c.scratch? with
       | none, _ => "singular-incremental"
       | _, none => "singular-scratch"
       | some st, some sc =>
@@ -100,8 +117,11 @@ def doFant (ts : List String) : String :=
         let e3 := decide (pm.arr = pm0.arr)
         let e4 := decide (pc.arr = pc0.arr)
         let e5 := decide ((J.mul st.mean).arr = y.arr)
+        let e6 := match ch.c.fold? with
+          | some sm => decide (sm.mean.arr = st.mean.arr ∧ sm.Kinv.arr = st.Kinv.arr)
+          | none => false
         let kappa := normInf J * normInf sc.Kinv
-        s!"ok eq={bit e1}{bit e2}{bit e3}{bit e4}{bit e5} kappa {showApprox kappa} | {showMat st.mean} | {showMat st.Kinv} | {showMat pm} | {showMat pc}"
+        s!"ok eq={bit e1}{bit e2}{bit e3}{bit e4}{bit e5}{bit e6} kappa {showApprox kappa} | {showMat sc.mean} | {showMat sc.Kinv} | {showMat pm0} | {showMat pc0}"
   | _ => "bad"
 
 def doRoot (ts : List String) : String :=
@@ -120,39 +140,101 @@ def doRoot (ts : List String) : String :=
     match G.inv? with
     | none => "singular-G"
     | some Gi =>
-      let Z := rootUpdate L R U G
-      let Rp := invRootUpdate R U Gi
+      let Z := Gen.FantasyAlgebra.defaultNewRoot L R G Gi U S
+      let Rp := Gen.FantasyAlgebra.defaultCovarCache L R G Gi U S
       let F := U.mul R
       let resid := (G.mul G.transpose).sub (S.sub (F.mul F.transpose))
       s!"ok | {showMat Z} | {showMat Rp} | {showMat resid}"
 
+structure WiskiReq where
+  m : Nat
+  n : Nat
+  f : Nat
+  W : DMat m n Rat
+  Dinv : DMat n n Rat
+  r : DMat n 1 Rat
+  Wf : DMat m f Rat
+  Dfinv : DMat f f Rat
+  rf : DMat f 1 Rat
+  Sq : DMat f f Rat
+  K : DMat m m Rat
+  p : Nat
+  L : DMat m p Rat
+
+def parseWiski (ts : List String) : Option WiskiReq := do
+  let (m, n) ← peekDims ts
+  let (W, ts) ← takeD m n ts
+  let (Dinv, ts) ← takeD n n ts
+  let (r, ts) ← takeD n 1 ts
+  let (_, f) ← peekDims ts
+  let (Wf, ts) ← takeD m f ts
+  let (Dfinv, ts) ← takeD f f ts
+  let (rf, ts) ← takeD f 1 ts
+  let (Sq, ts) ← takeD f f ts
+  let (K, ts) ← takeD m m ts
+  let (_, p) ← peekDims ts
+  let (L, _) ← takeD m p ts
+  some ⟨m, n, f, W, Dinv, r, Wf, Dfinv, rf, Sq, K, p, L⟩
+
+/-- `wiski W Dinv r Wf Dfinv rf Sq K L`: caches updated with the *generated* definitions (`Sq` = observed
+`D_f^{-1/2}`, `L` = observed Cholesky root of the updated `interp_inner_prod`), recomputation from the full data,
+and the generated `fantasy_mean_cache`.
+reply: ok eq=<c' = recomputed> | P' | c' | P0 | mean cache -/
 def doWiski (ts : List String) : String :=
-  match (do
-    let (m, n) ← peekDims ts
-    let (W, ts) ← takeD m n ts
-    let (Dinv, ts) ← takeD n n ts
-    let (r, ts) ← takeD n 1 ts
-    let (_, f) ← peekDims ts
-    let (Wf, ts) ← takeD m f ts
-    let (Dfinv, ts) ← takeD f f ts
-    let (rf, _) ← takeD f 1 ts
-    some (⟨m, n, f, W, Dinv, r, Wf, Dfinv, rf⟩ :
-      (m : Nat) × (n : Nat) × (f : Nat) × DMat m n Rat × DMat n n Rat × DMat n 1 Rat × DMat m f Rat × DMat f f Rat ×
-        DMat f 1 Rat)) with
+  match parseWiski ts with
   | none => "bad"
-  | some ⟨_, _, _, W, Dinv, r, Wf, Dfinv, rf⟩ =>
-    let P' := wiskiInnerUpdate (interpInnerProd W Dinv) Wf Dfinv
-    let c' := wiskiResponseUpdate (interpResponse W Dinv r) Wf Dfinv rf
-    let Dall := blocks Dinv DMat.zero DMat.zero Dfinv
-    let P0 := interpInnerProd (hcat W Wf) Dall
-    let c0 := interpResponse (hcat W Wf) Dall (vcat r rf)
-    s!"ok eq={bit (decide (P'.arr = P0.arr))}{bit (decide (c'.arr = c0.arr))} | {showMat P'} | {showMat c'}"
+  | some q =>
+    let z : DMat q.f 1 Rat := DMat.zero
+    let P := interpInnerProd q.W q.Dinv
+    let c := interpResponse q.W q.Dinv q.r
+    let P' := Gen.FantasyAlgebra.wiskiInnerProd P c q.Wf q.Dfinv q.Sq q.rf z
+    let c' := Gen.FantasyAlgebra.wiskiResponseCache P c q.Wf q.Dfinv q.Sq q.rf z
+    let Dall := blocks q.Dinv DMat.zero DMat.zero q.Dfinv
+    let P0 := interpInnerProd (hcat q.W q.Wf) Dall
+    let c0 := interpResponse (hcat q.W q.Wf) Dall (vcat q.r q.rf)
+    match Gen.FantasyAlgebra.wiskiMeanCache? q.K q.L c' with
+    | none => "singular-q"
+    | some mc =>
+      s!"ok eq={bit (decide (c'.arr = c0.arr))} | {showMat P'} | {showMat c'} | {showMat P0} | {showMat mc}"
+
+/-- `noisecat old new`: generated fixed-noise concatenation, exact. -/
+def doNoiseCat (ts : List String) : String :=
+  match (do
+    let (n, _) ← peekDims ts
+    let (o, ts) ← takeD n 1 ts
+    let (f, _) ← peekDims ts
+    let (nw, _) ← takeD f 1 ts
+    some (⟨n, f, o, nw⟩ : (n : Nat) × (f : Nat) × DMat n 1 Rat × DMat f 1 Rat)) with
+  | none => "bad"
+  | some ⟨_, _, o, nw⟩ =>
+    let g := Gen.FantasyAlgebra.fixedNoiseConcat o nw
+    s!"ok eq={bit (decide (g.arr = (Fantasy.fixedNoiseConcat o nw).arr))} | " ++ showRows g.toRows
+
+/-- `routes hasNoise k e1 … ek` (`ei` = 1 when `noise[i]` is not None): generated per-member noise routing.
+reply: ok eq=<generated = Route.memberKwargs> | r1 … rk   with ri = index of the noise entry member i receives, or `-` -/
+def doRoutes (ts : List String) : String :=
+  match ts.mapM String.toNat? with
+  | some (h :: k :: es) =>
+    let noise : Option (List (Option Nat)) :=
+      if h = 1 then some (es.zipIdx.map fun (e, i) => if e = 1 then some i else none) else none
+    let g := Gen.FantasyAlgebra.modelListKwargs [] noise k
+    let spec := Route.memberKwargs [] noise k
+    let shw (kw : Route.Kw) : String := match kw.find? (·.1 = Route.noiseKey) with
+      | some (_, some v) => toString v
+      | some (_, none) => "None"
+      | none => "-"
+    let calls := Gen.FantasyAlgebra.modelListCalls (List.range k) ((List.range k).map (· + 100)) g
+    let okc := decide (calls = Route.memberCalls (List.range k) ((List.range k).map (· + 100)) g)
+    s!"ok eq={bit (decide (g = spec))}{bit okc} | " ++ " ".intercalate (g.map shw)
+  | _ => "bad"
 
 def step (line : String) : String :=
   match tokens line with
   | "fant" :: ts => doFant ts
   | "root" :: ts => doRoot ts
   | "wiski" :: ts => doWiski ts
+  | "noisecat" :: ts => doNoiseCat ts
+  | "routes" :: ts => doRoutes ts
   | _ => "bad"
 
 def main : IO Unit := Proto.main step
